@@ -307,3 +307,90 @@ theorem r6_password_is_alg2B (P : Prims) (pw salt vec : Bytes) (hs : salt.length
   rw [List.take_of_length_le hs]
 
 end PdfVerif.Crypt
+
+namespace PdfVerif.Crypt
+open PdfVerif PdfVerif.Gen.Crypt PdfVerif.CryptWriter
+
+/-! ### eager strings, lazy payload -/
+
+section flat
+variable (f : Bytes → Bytes) (g g' : Bool → Bytes → Bytes)
+
+mutual
+theorem decipher_flat (o : Obj) (h : flat o = true) : decipherAll f g o = decipherAll f g' o := by
+  cases o with
+  | str b => rfl
+  | atom a => rfl
+  | arr xs => simp only [flat] at h; simp only [decipherAll, decipher_flat_list xs h]
+  | dict kvs => simp only [flat] at h; simp only [decipherAll, decipher_flat_kvs kvs h]
+  | stream a r => simp [flat] at h
+theorem decipher_flat_list (xs : List Obj) (h : flatList xs = true) :
+    decipherList f g xs = decipherList f g' xs := by
+  cases xs with
+  | nil => rfl
+  | cons x xs =>
+    simp only [flatList, Bool.and_eq_true] at h
+    simp only [decipherList, decipher_flat x h.1, decipher_flat_list xs h.2]
+theorem decipher_flat_kvs (kvs : List (Bytes × Obj)) (h : flatKVs kvs = true) :
+    decipherKVs f g kvs = decipherKVs f g' kvs := by
+  cases kvs with
+  | nil => rfl
+  | cons kv rest =>
+    obtain ⟨k, v⟩ := kv
+    simp only [flatKVs, Bool.and_eq_true] at h
+    simp only [decipherKVs, decipher_flat v h.1, decipher_flat_kvs rest h.2]
+end
+end flat
+
+theorem attrsType_decipherKVs (f : Bytes → Bytes) (g : Bool → Bytes → Bytes)
+    (kvs : List (Bytes × Obj)) : attrsType (decipherKVs f g kvs) = attrsType kvs := by
+  induction kvs with
+  | nil => rfl
+  | cons kv rest ih =>
+    obtain ⟨k, v⟩ := kv
+    cases v with
+    | str b => by_cases hb : b.isEmpty <;> simp [decipherKVs, decipherAll, attrsType, ih, hb]
+    | atom a => simp [decipherKVs, decipherAll, attrsType, ih]
+    | arr xs => simp [decipherKVs, decipherAll, attrsType, ih]
+    | dict d => simp [decipherKVs, decipherAll, attrsType, ih]
+    | stream a r =>
+      simp only [decipherKVs, decipherAll, attrsType, ih]
+      split
+      · split
+        · rename_i heq
+          split at heq <;> cases heq
+        · rfl
+      · rfl
+
+end PdfVerif.Crypt
+
+namespace PdfVerif.Crypt
+open PdfVerif PdfVerif.CryptWriter
+
+mutual
+theorem encrypt_flat (e : Bytes → Bytes) (s1 s2 : List (Bytes × Obj) → Bool) (o : Obj) (h : flat o = true) :
+    encryptAll e s1 o = encryptAll e s2 o := by
+  cases o with
+  | str b => rfl
+  | atom a => rfl
+  | arr xs => simp only [flat] at h; simp only [encryptAll, encrypt_flat_list e s1 s2 xs h]
+  | dict kvs => simp only [flat] at h; simp only [encryptAll, encrypt_flat_kvs e s1 s2 kvs h]
+  | stream a r => simp [flat] at h
+theorem encrypt_flat_list (e : Bytes → Bytes) (s1 s2 : List (Bytes × Obj) → Bool) (xs : List Obj)
+    (h : flatList xs = true) : encryptList e s1 xs = encryptList e s2 xs := by
+  cases xs with
+  | nil => rfl
+  | cons x xs =>
+    simp only [flatList, Bool.and_eq_true] at h
+    simp only [encryptList, encrypt_flat e s1 s2 x h.1, encrypt_flat_list e s1 s2 xs h.2]
+theorem encrypt_flat_kvs (e : Bytes → Bytes) (s1 s2 : List (Bytes × Obj) → Bool)
+    (kvs : List (Bytes × Obj)) (h : flatKVs kvs = true) : encryptKVs e s1 kvs = encryptKVs e s2 kvs := by
+  cases kvs with
+  | nil => rfl
+  | cons kv rest =>
+    obtain ⟨k, v⟩ := kv
+    simp only [flatKVs, Bool.and_eq_true] at h
+    simp only [encryptKVs, encrypt_flat e s1 s2 v h.1, encrypt_flat_kvs e s1 s2 rest h.2]
+end
+
+end PdfVerif.Crypt
